@@ -8,7 +8,7 @@ from props.common import gen_strategy, quiet_logging, Violations, set_knob
 from worlds.push import PushWorld
 
 ID = 'C11'
-TIERS = {'quick': {'runs': 6000, 'budget_s': 55, 'wall_cap': 90, 'block': 60},
+TIERS = {'quick': {'runs': 18000, 'budget_s': 55, 'wall_cap': 90, 'block': 60},
          'thorough': {'runs': 600000, 'budget_s': 840, 'wall_cap': 90, 'block': 60}}
 SHRINK_LISTS = ['messages']
 COVERAGE_RULE = ('one run = one real AsyncioConnection (real asyncio.BaseEventLoop scheduling on the virtual clock, simulated selector and '
